@@ -364,7 +364,7 @@ impl PropertySet {
         for (_, value) in self.properties.iter() {
             value.write(writer.by_ref(), self.codepage)?;
         }
-        Ok(())
+        writer.flush()
     }
 
     pub fn format_identifier(&self) -> &[u8; 16] {
